@@ -14,8 +14,14 @@ theorem alloc_congr {m m' : Mem} (h : m.sched = m'.sched) :
   | nil => exact ⟨rfl, rfl⟩
   | cons b r => cases b <;> exact ⟨rfl, rfl⟩
 
-theorem free_congr {m m' : Mem} (h : m.sched = m'.sched) : m.free.sched = m'.free.sched := by
-  rw [free_sched, free_sched, h]
+theorem allocT_congr (t : Triple) {m m' : Mem} (h : m.sched = m'.sched) :
+    (m.allocT t).1 = (m'.allocT t).1 ∧ (m.allocT t).2.sched = (m'.allocT t).2.sched := by
+  cases t
+  · exact alloc_congr h
+  · exact ⟨rfl, h⟩
+
+theorem free_congr (t : Triple) {m m' : Mem} (h : m.sched = m'.sched) : (m.freeT t).sched = (m'.freeT t).sched := by
+  rw [freeT_sched, freeT_sched, h]
 
 theorem check_congr {m m' : Mem} (b : Bool) (h : m.sched = m'.sched) : (m.check b).sched = (m'.check b).sched := by
   rw [Mem.check_sched, Mem.check_sched, h]
@@ -57,15 +63,15 @@ theorem copyBuffer_indep (d : Deque) (b : Buf Nat) (cp : Option (Nat → Nat)) (
 theorem expandCapacity_indep (d : Deque) (m m' : Mem) (h : m.sched = m'.sched) :
     (d.expandCapacity m).1 = (d.expandCapacity m').1 ∧ (d.expandCapacity m).2.1 = (d.expandCapacity m').2.1 ∧
     (d.expandCapacity m).2.2.sched = (d.expandCapacity m').2.2.sched := by
-  obtain ⟨a1, a2⟩ := alloc_congr h
+  obtain ⟨a1, a2⟩ := allocT_congr d.triple h
   by_cases hc : d.cap = Gen.MAX_POW_TWO
   · rw [expandCapacity_max d m hc, expandCapacity_max d m' hc]; exact ⟨rfl, rfl, h⟩
-  · cases ha : m.alloc.1
+  · cases ha : (m.allocT d.triple).1
     · rw [expandCapacity_refused d m hc ha, expandCapacity_refused d m' hc (by rw [← a1]; exact ha)]
       exact ⟨rfl, rfl, a2⟩
     · rw [expandCapacity_grow d m hc ha, expandCapacity_grow d m' hc (by rw [← a1]; exact ha)]
-      obtain ⟨c1, c2⟩ := copyBuffer_indep d (Buf.mk (d.cap <<< 1)) none m.alloc.2 m'.alloc.2 a2
-      refine ⟨rfl, by simp only; rw [c1], free_congr c2⟩
+      obtain ⟨c1, c2⟩ := copyBuffer_indep d (Buf.mk (d.cap <<< 1)) none (m.allocT d.triple).2 (m'.allocT d.triple).2 a2
+      refine ⟨rfl, by simp only; rw [c1], free_congr _ c2⟩
 
 theorem addLastCore_indep (d : Deque) (x : Nat) (m m' : Mem) (h : m.sched = m'.sched) :
     (d.addLastCore x m).1 = (d.addLastCore x m').1 ∧ (d.addLastCore x m).2.1 = (d.addLastCore x m').2.1 ∧
@@ -272,7 +278,7 @@ theorem getters_indep (d : Deque) (i x : Nat) (eqv : Nat → Nat → Bool) (m m'
 theorem trimCapacity_indep (d : Deque) (m m' : Mem) (h : m.sched = m'.sched) :
     (d.trimCapacity m).1 = (d.trimCapacity m').1 ∧ (d.trimCapacity m).2.1 = (d.trimCapacity m').2.1 ∧
     (d.trimCapacity m).2.2.sched = (d.trimCapacity m').2.2.sched := by
-  obtain ⟨a1, a2⟩ := alloc_congr h
+  obtain ⟨a1, a2⟩ := allocT_congr d.triple h
   unfold trimCapacity
   split
   · exact ⟨rfl, rfl, h⟩
@@ -282,8 +288,8 @@ theorem trimCapacity_indep (d : Deque) (m m' : Mem) (h : m.sched = m'.sched) :
   rw [a1]
   split
   · exact ⟨rfl, rfl, a2⟩
-  · obtain ⟨c1, c2⟩ := copyBuffer_indep d (Buf.mk (upperPow2 d.size)) none m.alloc.2 m'.alloc.2 a2
-    exact ⟨rfl, by simp only [c1], free_congr c2⟩
+  · obtain ⟨c1, c2⟩ := copyBuffer_indep d (Buf.mk (upperPow2 d.size)) none (m.allocT d.triple).2 (m'.allocT d.triple).2 a2
+    exact ⟨rfl, by simp only [c1], free_congr _ c2⟩
 
 theorem revStep_fold_indep (d : Deque) (l : List Nat) (b : Buf Nat) (m m' : Mem) (h : m.sched = m'.sched) :
     (l.foldl (revStep d) (b, m)).1 = (l.foldl (revStep d) (b, m')).1 ∧
@@ -340,32 +346,32 @@ theorem filterMut_indep (d : Deque) (pred : Nat → Bool) (m m' : Mem) (h : m.sc
 
 /-! ## constructor and builders -/
 
-theorem new_indep (confCap : Nat) (m m' : Mem) (h : m.sched = m'.sched) :
-    (Deque.new confCap m).1 = (Deque.new confCap m').1 ∧ (Deque.new confCap m).2.1 = (Deque.new confCap m').2.1 ∧
-    (Deque.new confCap m).2.2.sched = (Deque.new confCap m').2.2.sched := by
-  obtain ⟨a1, a2⟩ := alloc_congr h
-  obtain ⟨b1, b2⟩ := alloc_congr a2
+theorem new_indep (confCap : Nat) (t : Triple) (m m' : Mem) (h : m.sched = m'.sched) :
+    (Deque.new confCap t m).1 = (Deque.new confCap t m').1 ∧ (Deque.new confCap t m).2.1 = (Deque.new confCap t m').2.1 ∧
+    (Deque.new confCap t m).2.2.sched = (Deque.new confCap t m').2.2.sched := by
+  obtain ⟨a1, a2⟩ := allocT_congr t h
+  obtain ⟨b1, b2⟩ := allocT_congr t a2
   unfold Deque.new
   dsimp only
   rw [a1, b1]
   split
   · exact ⟨rfl, rfl, a2⟩
   · split
-    · exact ⟨rfl, rfl, free_congr b2⟩
+    · exact ⟨rfl, rfl, free_congr _ b2⟩
     · exact ⟨rfl, rfl, b2⟩
 
 theorem copy_indep (d : Deque) (cp : Option (Nat → Nat)) (m m' : Mem) (h : m.sched = m'.sched) :
     (d.copy cp m).1 = (d.copy cp m').1 ∧ (d.copy cp m).2.1 = (d.copy cp m').2.1 ∧
     (d.copy cp m).2.2.sched = (d.copy cp m').2.2.sched := by
-  obtain ⟨a1, a2⟩ := alloc_congr h
-  obtain ⟨b1, b2⟩ := alloc_congr a2
+  obtain ⟨a1, a2⟩ := allocT_congr d.triple h
+  obtain ⟨b1, b2⟩ := allocT_congr d.triple a2
   unfold copy
   dsimp only
   rw [a1, b1]
   split
   · exact ⟨rfl, rfl, a2⟩
   · split
-    · exact ⟨rfl, rfl, free_congr b2⟩
+    · exact ⟨rfl, rfl, free_congr _ b2⟩
     · obtain ⟨c1, c2⟩ := copyBuffer_indep d (Buf.mk d.cap) cp _ _ b2
       exact ⟨rfl, by simp only [c1], c2⟩
 
@@ -399,7 +405,7 @@ theorem filterLoop_indep (d : Deque) (pred : Nat → Bool) (is : List Nat) (f : 
 theorem filter_indep (d : Deque) (pred : Nat → Bool) (m m' : Mem) (h : m.sched = m'.sched) :
     (d.filter pred m).1 = (d.filter pred m').1 ∧ (d.filter pred m).2.1 = (d.filter pred m').2.1 ∧
     (d.filter pred m).2.2.sched = (d.filter pred m').2.2.sched := by
-  obtain ⟨n1, n2, n3⟩ := new_indep d.cap m m' h
+  obtain ⟨n1, n2, n3⟩ := new_indep d.cap d.triple m m' h
   unfold filter
   split
   · exact ⟨rfl, rfl, h⟩
@@ -411,7 +417,7 @@ theorem filter_indep (d : Deque) (pred : Nat → Bool) (m m' : Mem) (h : m.sched
     obtain ⟨q1, q2, q3⟩ := filterLoop_indep d pred (List.range d.size) f0 _ _ n3
     rw [q1, q2]
     split
-    · exact ⟨rfl, rfl, by unfold destroy; exact free_congr (free_congr q3)⟩
+    · exact ⟨rfl, rfl, by unfold destroy; exact free_congr _ (free_congr _ q3)⟩
     · exact ⟨rfl, rfl, q3⟩
 
 /-! ## iterators -/
